@@ -836,8 +836,8 @@ func c19ExactFirst(p *Program, r *Report) {
 					if !ok {
 						continue
 					}
-					o := calleeObj(c)
-					if o == nil || !isFuncNamed(o, "strconv", "", "ParseFloat") {
+					strArg, isFP := floatParseOf(c)
+					if !isFP {
 						continue
 					}
 					// is the parsed float truncated to an integer?
@@ -869,7 +869,7 @@ func c19ExactFirst(p *Program, r *Report) {
 							if !ok {
 								continue
 							}
-							if o2 := calleeObj(pi); o2 == nil || !isFuncNamed(o2, "strconv", "", "ParseInt") || !sameStringArg(pi.Call.Args[0], c.Call.Args[0]) {
+							if o2 := calleeObj(pi); o2 == nil || !isFuncNamed(o2, "strconv", "", "ParseInt") || !sameStringArg(pi.Call.Args[0], strArg) {
 								continue
 							}
 							var errEx ssa.Value
@@ -1097,6 +1097,61 @@ func sameTypeValue(a, b ssa.Value) bool {
 	return false
 }
 
+// floatParseOf: c parses a string as a float: strconv.ParseFloat itself, or a function of the module whose first result is the
+// value strconv.ParseFloat gives for one of its string parameters (`func parseNumber(s string) (float64, bool)`); returns the
+// string that is parsed, as the caller sees it.
+func floatParseOf(c *ssa.Call) (ssa.Value, bool) {
+	if o := calleeObj(c); o != nil && isFuncNamed(o, "strconv", "", "ParseFloat") {
+		return c.Call.Args[0], true
+	}
+	callee := staticCallee(c)
+	if callee == nil || len(callee.Blocks) == 0 || callee.Pkg == nil || !strings.HasPrefix(callee.Pkg.Pkg.Path(), modPath) || callee.Signature.Results().Len() < 1 {
+		return nil, false
+	}
+	if bt, ok := callee.Signature.Results().At(0).Type().Underlying().(*types.Basic); !ok || bt.Kind() != types.Float64 {
+		return nil, false
+	}
+	for _, b := range callee.Blocks {
+		for _, in := range b.Instrs {
+			pc, ok := in.(*ssa.Call)
+			if !ok {
+				continue
+			}
+			if o := calleeObj(pc); o == nil || !isFuncNamed(o, "strconv", "", "ParseFloat") {
+				continue
+			}
+			for i, prm := range callee.Params {
+				if pc.Call.Args[0] == ssa.Value(prm) && i < len(c.Call.Args) {
+					// its value is what the function returns first
+					for _, ref := range *pc.Referrers() {
+						ex, ok := ref.(*ssa.Extract)
+						if !ok || ex.Index != 0 {
+							continue
+						}
+						for _, b2 := range callee.Blocks {
+							if ret, ok := b2.Instrs[len(b2.Instrs)-1].(*ssa.Return); ok && len(ret.Results) > 0 {
+								if ret.Results[0] == ssa.Value(ex) {
+									return c.Call.Args[i], true
+								}
+								if u, ok := ret.Results[0].(*ssa.UnOp); ok {
+									if al, ok := u.X.(*ssa.Alloc); ok {
+										for _, r2 := range *al.Referrers() {
+											if st, ok := r2.(*ssa.Store); ok && st.Val == ssa.Value(ex) {
+												return c.Call.Args[i], true
+											}
+										}
+									}
+								}
+							}
+						}
+					}
+				}
+			}
+		}
+	}
+	return nil, false
+}
+
 // c19ParseResultUsed (R9): the value a strconv parse returns is used only where its error is nil (the other side holds a partial
 // or zero result): in the builtins, the literal conversion and the numeric converters of vm.
 func c19ParseResultUsed(p *Program, r *Report) {
@@ -1166,7 +1221,43 @@ func c19ParseResultUsed(p *Program, r *Report) {
 						}
 					}
 					collect(val, 0)
+					// handing the value back together with its error (or with `err == nil` as an ok flag) is not a use: the helper's
+					// caller decides by that error or flag
+					derivedFromErr := func(v ssa.Value) bool {
+						if v == ssa.Value(errV) {
+							return true
+						}
+						if bo, ok := v.(*ssa.BinOp); ok && (bo.X == ssa.Value(errV) || bo.Y == ssa.Value(errV)) {
+							return true
+						}
+						if u, ok := v.(*ssa.UnOp); ok {
+							if al, ok := u.X.(*ssa.Alloc); ok {
+								for _, ref := range *al.Referrers() {
+									if st, ok := ref.(*ssa.Store); ok && st.Addr == ssa.Value(al) {
+										if st.Val == ssa.Value(errV) {
+											return true
+										}
+										if bo, ok := st.Val.(*ssa.BinOp); ok && (bo.X == ssa.Value(errV) || bo.Y == ssa.Value(errV)) {
+											return true
+										}
+									}
+								}
+							}
+						}
+						return false
+					}
 					for _, u := range uses {
+						if ret, ok := u.(*ssa.Return); ok && len(ret.Results) >= 2 {
+							withErr := false
+							for _, res := range ret.Results {
+								if derivedFromErr(res) {
+									withErr = true
+								}
+							}
+							if withErr {
+								continue
+							}
+						}
 						if !onNilErrorSide(u.Block(), errV) {
 							bad = p.Pos(instrPos(u))
 						}
